@@ -258,4 +258,4 @@ def check(P, R):
     c09.check_init_dominance(P, R, 'C08.c')
 
     # ---- d
-    c09.check_shared_writes(P, R, 'C08.d', strict=True, same_for_all_threads_ok=True, skip_config_time=True)
+    c09.check_shared_writes(P, R, 'C08.d', strict=True, same_for_all_threads_ok=True, skip_config_time=True, pure_memo_ok=True)
